@@ -99,6 +99,8 @@ func main() {
 		sort.Slice(res.Findings, func(i, j int) bool { return res.Findings[i].Signature < res.Findings[j].Signature })
 		b, _ := json.MarshalIndent(res, "", " ")
 		fmt.Println(string(b))
+	case "scn":
+		cmdScn(os.Args[2:])
 	default:
 		fmt.Fprintln(os.Stderr, "unknown command", os.Args[1])
 		os.Exit(2)
